@@ -82,11 +82,11 @@ func fatal(f string, a ...any) {
 }
 
 type rw struct {
-	pkg *types.Package
-	fset *token.FileSet
-	info *types.Info
-	file string
-	used bool
+	pkg   *types.Package
+	fset  *token.FileSet
+	info  *types.Info
+	file  string
+	used  bool
 	funcs []fnRange
 }
 
@@ -238,6 +238,8 @@ func (r *rw) fieldAccess(e ast.Expr) (string, bool) {
 func (r *rw) raceRewrite(f *ast.File) {
 	writes := map[ast.Expr]bool{}
 	skip := map[ast.Expr]bool{}
+	mapIdx := map[*ast.IndexExpr]bool{}   // index expressions on maps (by original node)
+	mapCall := map[*ast.CallExpr]string{} // delete(m,k) / len(m) on maps
 	ast.Inspect(f, func(n ast.Node) bool {
 		switch st := n.(type) {
 		case *ast.AssignStmt:
@@ -250,10 +252,41 @@ func (r *rw) raceRewrite(f *ast.File) {
 			if st.Op == token.AND {
 				skip[st.X] = true
 			}
+		case *ast.IndexExpr:
+			if r.isMap(st.X) {
+				mapIdx[st] = true
+			}
+		case *ast.CallExpr:
+			if id, ok := st.Fun.(*ast.Ident); ok && len(st.Args) >= 1 && r.isMap(st.Args[0]) {
+				switch id.Name {
+				case "delete":
+					mapCall[st] = "MapW"
+				case "len":
+					mapCall[st] = "MapR"
+				}
+			}
 		}
 		return true
 	})
 	astutil.Apply(f, nil, func(c *astutil.Cursor) bool {
+		switch n := c.Node().(type) {
+		case *ast.IndexExpr:
+			if mapIdx[n] {
+				fn := "MapR"
+				if writes[n] {
+					fn = "MapW"
+				}
+				r.used = true
+				n.X = call("vsched", fn, n.X, lit("map|"+r.funcOf(n)+"|"+r.pos(n)))
+				return true
+			}
+		case *ast.CallExpr:
+			if fn, ok := mapCall[n]; ok {
+				r.used = true
+				n.Args[0] = call("vsched", fn, n.Args[0], lit("map|"+r.funcOf(n)+"|"+r.pos(n)))
+				return true
+			}
+		}
 		e, ok := c.Node().(ast.Expr)
 		if !ok || skip[e] {
 			return true
@@ -364,6 +397,10 @@ func (r *rw) apply(f *ast.File) {
 				}
 				if v, ok := n.Value.(*ast.Ident); ok && v.Name != "_" {
 					pre = append(pre, &ast.AssignStmt{Lhs: []ast.Expr{v}, Tok: n.Tok, Rhs: []ast.Expr{&ast.IndexExpr{X: n.X, Index: ast.NewIdent("vk__")}}})
+				}
+				if raceMode {
+					// every iteration reads the map
+					pre = append([]ast.Stmt{&ast.ExprStmt{X: call("vsched", "MapR", n.X, lit("map|"+r.funcOf(n)+"|"+r.pos(n)))}}, pre...)
 				}
 				n.Body.List = append(pre, n.Body.List...)
 				n.Key, n.Value, n.Tok = ast.NewIdent("_"), ast.NewIdent("vk__"), token.DEFINE
